@@ -613,7 +613,7 @@ fn script_for(outcome: u8) -> Vec<Scripted> {
             sse(&[json!({"type":"response.completed","response":{"id":"resp_v","bogus_field":true}})], true)
         ))],
         8 => {
-            // assumption probe only (never part of the oracle): the provider asks the shell tool for the key variable
+            // corpus/C19/b1_printenv.json: the provider asks the shell tool for the key variable (KNOWN_FINDINGS C19/B1)
             let mut first = vec![ev_created("resp_p1")];
             first.extend(ev_call("call_p", "bash", "{\"command\":\"printenv RIP_OPENRESPONSES_API_KEY\"}"));
             vec![Scripted::sse_text(&sse(&first, true)), Scripted::sse_text(&sse(&[ev_created("resp_p2"), ev_delta("done")], true))]
@@ -1467,6 +1467,34 @@ fn check_pair(a: &RunOut, b: &RunOut, cores: [&str; 4], sc: &Scenario) -> PairRe
             ));
         }
     }
+    // B1 (KNOWN_FINDINGS): the scripted provider asked the shell tool to print the key variable.  When every
+    // persisted frame that holds a canary is a tool-output frame (tool_stdout / tool_stderr / tool_ended / ..) the
+    // leak is exactly "tool output shows the inherited environment"; anything else keeps its generic class.
+    if sc.outcome == 8 {
+        let tool_only = |r: &RunOut, cs: [&str; 2]| -> Option<bool> {
+            let mut any = false;
+            for f in &r.disk_session {
+                let txt = f.to_string();
+                if cs.iter().any(|c| txt.contains(c)) {
+                    any = true;
+                    if !f["type"].as_str().unwrap_or("").starts_with("tool_") {
+                        return Some(false);
+                    }
+                }
+            }
+            any.then_some(true)
+        };
+        if tool_only(a, [cores[0], cores[1]]) == Some(true) && tool_only(b, [cores[2], cores[3]]) == Some(true) {
+            let (leaks, rest): (Vec<_>, Vec<_>) = rep.violations.drain(..).partition(|(c, _)| c.starts_with("secret_in_") || c.ends_with("_depends_on_secret"));
+            rep.violations = rest;
+            if let Some((_, first)) = leaks.first() {
+                rep.violations.push((
+                    "secret_in_tool_output_via_inherited_env".into(),
+                    format!("the shell tool inherits the authority's environment: a provider-requested `printenv RIP_OPENRESPONSES_API_KEY` shows the env-supplied key in tool-output frames only ({} sink hits, e.g. {})", leaks.len(), first.chars().take(300).collect::<String>()),
+                ));
+            }
+        }
+    }
     rep
 }
 
@@ -1606,26 +1634,6 @@ fn main() {
         for (class, what) in rep.violations {
             res.oracle_violations.push(OracleViolation { case_id: ids[0], what, class, replay: case_json.clone() });
         }
-    }
-    // assumption probe (reported as a note, never as a violation): tool output is outside the claim — the shell tool
-    // inherits the authority's environment, so a provider-requested `printenv` shows an env-supplied key in frames
-    if !args.oracle_only() {
-        let probe_core = core(&mut rng, 'P');
-        let probe = Scenario {
-            env: vec![("RIP_OPENRESPONSES_ENDPOINT".into(), "{{P}}/v1/responses".into()), ("RIP_OPENRESPONSES_API_KEY".into(), "{{K}}".into())],
-            thread: false,
-            outcome: 8,
-            prompt: "probe".into(),
-            channel: "assumption-probe".into(),
-            oracle_only: true,
-            ..Default::default()
-        };
-        let r = run_once(&probe, &probe_core, "unused");
-        let in_frames = r.files.iter().any(|(_, b)| find(b, probe_core.as_bytes()).is_some());
-        let ran = r.disk_session.iter().any(|f| f["type"] == "tool_started");
-        res.notes.push(format!(
-            "assumption probe (NOT part of the claim, see notes/secret.md B1): provider-requested `bash -c printenv RIP_OPENRESPONSES_API_KEY` — tool ran: {ran}; env-supplied key visible in persisted tool output: {in_frames}"
-        ));
     }
     cw.flush();
     res.distinct_nontrivial = distinct.count();
